@@ -180,7 +180,21 @@ func (g *genCtx) evalOptsFor(used []string) []EOpt {
 			}
 		}
 		if (inUse && g.r.p(0.93)) || (!inUse && g.r.p(0.15)) {
-			opts = append(opts, EOpt{Kind: "var", Name: n, Var: i})
+			vi := i
+			if g.r.p(0.3) {
+				// the same name bound to another value of the same shape: the same compiled expression
+				// must not remember what an earlier evaluation saw under that name
+				var same []int
+				for j := range g.c.Vars {
+					if j != i && g.c.Vars[j].Kind == g.c.Vars[i].Kind && (g.c.Vars[i].Sys == nil || (g.c.Vars[j].Sys != nil && g.c.Vars[j].Sys.T == g.c.Vars[i].Sys.T)) && g.c.Vars[j].Kind != "sub" {
+						same = append(same, j)
+					}
+				}
+				if len(same) > 0 {
+					vi = pick(g.r, same)
+				}
+			}
+			opts = append(opts, EOpt{Kind: "var", Name: n, Var: vi})
 		}
 	}
 	if g.r.p(0.2) {
@@ -413,7 +427,7 @@ func genC04(seed uint64, run int, tier string) *Case {
 // (values, positions, tape) still come from the seed.
 
 var c04Shapes = []func(r rng, tier string) *Case{
-	shapeWhereSwitch, shapeTickBetweenNow, shapeTZLiteral, shapePatchShared, shapeStallCompile, shapeClockExact, shapeOrder, shapeTypedCallbacks, shapePatterns, shapeTypeHistory, shapeCallerChanges, shapeZoneElements, shapeBigWalk, shapeRootCollection, shapePermissiveLegacy,
+	shapeWhereSwitch, shapeTickBetweenNow, shapeTZLiteral, shapePatchShared, shapeStallCompile, shapeClockExact, shapeOrder, shapeTypedCallbacks, shapePatterns, shapeTypeHistory, shapeCallerChanges, shapeZoneElements, shapeBigWalk, shapeRootCollection, shapePermissiveLegacy, shapeLiteralSharing,
 }
 
 func baseShape(r rng, tier, name string, types ...string) *genCtx {
@@ -896,6 +910,45 @@ func shapePermissiveLegacy(r rng, tier string) *Case {
 			ops = []Op{{Kind: "eval", Prog: 0, Res: []int{0}}}
 		}
 		r.Shuffle(len(ops), func(i, j int) { ops[i], ops[j] = ops[j], ops[i] })
+		c.Clients = append(c.Clients, ops)
+	}
+	return c
+}
+
+// shapeLiteralSharing: literals live in the compiled tree and are shared by every evaluation of
+// the expression. Programs combine a literal with a variable that is bound to a DIFFERENT value
+// in every operation, and render or compare the result: nothing an earlier evaluation derived
+// from the literal may show in a later one.
+func shapeLiteralSharing(r rng, tier string) *Case {
+	g := baseShape(r, tier, "literal-sharing", "Patient")
+	c := g.c
+	c.Knobs.SwitchThr = 77
+	q := func(v, u string) VarSpec { return VarSpec{Kind: "sys", Sys: &SysVal{"Quantity", v + "|" + u}} }
+	sv := func(t, v string) VarSpec { return VarSpec{Kind: "sys", Sys: &SysVal{t, v}} }
+	c.Vars = []VarSpec{
+		q("4", "mg"), q("10", "mg"), q("0.5", "mg"), q("7", "mg"), // 0-3 quantities
+		sv("Decimal", "0.5"), sv("Decimal", "2.25"), sv("Decimal", "100.001"), // 4-6
+		sv("Integer", "1"), sv("Integer", "7"), sv("Integer", "42"), // 7-9
+		sv("String", "x"), sv("String", "longer text"), sv("String", ""), // 10-12
+		q("1", "day"), q("3", "days"), q("2", "months"), // 13-15 durations
+	}
+	kinds := map[string][]int{"q": {0, 1, 2, 3}, "d": {4, 5, 6}, "i": {7, 8, 9}, "s": {10, 11, 12}, "t": {13, 14, 15}}
+	progs := []struct{ src, v string }{
+		{"(3 'mg' + %q).toString()", "q"}, {"(3 'mg' - %q).abs() = 7 'mg'", "q"}, {"(3 'mg' + %q) > 10 'mg'", "q"}, {"(%q + 3 'mg').toString()", "q"},
+		{"(1.5 + %d).toString()", "d"}, {"(1.5 * %d).round(1)", "d"}, {"(10 - %i).toString()", "i"}, {"(10 div %i) + (10 mod %i)", "i"},
+		{"('ab' + %s).length()", "s"}, {"('ab' & %s).upper()", "s"}, {"(@2020-01-31 + %t).toString()", "t"}, {"(@2020-03-07T12:00:00-03:30 + %t).toString()", "t"},
+		{"(@T10:00:00 + 90 minutes).toString() & %s", "s"}, {"(5 'mg').toString() & (3 'mg' + %q).toString()", "q"},
+	}
+	for _, p := range progs {
+		c.Programs = append(c.Programs, ProgSpec{Src: p.src})
+	}
+	for ci := 0; ci < 2+r.n(2); ci++ {
+		var ops []Op
+		for oi := 0; oi < 6; oi++ {
+			pi := r.n(len(progs))
+			k := progs[pi].v
+			ops = append(ops, Op{Kind: pick(r, []string{"eval", "eval", "string"}), Prog: pi, Res: []int{0}, Opts: []EOpt{{Kind: "var", Name: k, Var: pick(r, kinds[k])}}})
+		}
 		c.Clients = append(c.Clients, ops)
 	}
 	return c
